@@ -235,3 +235,13 @@ Proof.
   rewrite forallb_forall in H. apply Z.eqb_eq. apply H. apply zrange_in.
   pose proof (sc_index_range f). lia.
 Qed.
+
+(* ---------- the context functions the executable model calls = Annex D ---------- *)
+Theorem model_zc_is_annexD : forall f o, 0 <= o < 4 -> zc_ctx_t f o = annexD_zc o (nbhd_of_flags f).
+Proof. intros. rewrite zc_ctx_t_eq. apply zc_ctx_matches_annexD. assumption. Qed.
+
+Theorem model_sc_is_annexD : forall f, sc_ctx_t f = annexD_sc (nbhd_of_flags f).
+Proof. intros. rewrite sc_ctx_t_eq. apply sc_ctx_matches_annexD. Qed.
+
+Theorem model_spb_is_annexD : forall f, spb_t f = annexD_xor (nbhd_of_flags f).
+Proof. intros. rewrite spb_t_eq. apply spb_matches_annexD. Qed.
